@@ -174,3 +174,22 @@ fn c25_four_step_histories() {
     kani::assert(read(&a, 0) == view[0] && read(&a, 1) == view[1], "C25.final_contents_agree_with_the_view");
     std::mem::forget(a);
 }
+
+/// values of a zero-sized type have destructors too (guard / marker tokens): they are released with the owner
+static mut ZDROPS: usize = 0x7901;
+struct Z;
+impl Drop for Z { fn drop(&mut self) { unsafe { ZDROPS += 1; } } }
+#[kani::proof]
+#[kani::unwind(5)]
+fn c25_drop_releases_zero_sized_values() {
+    let a = CoroutineLocal::default();
+    let n: usize = kani::any();
+    kani::assume(n <= 2);
+    if n >= 1 { let o = a.put("k", Z); std::mem::forget(o); }
+    if n >= 2 { let o = a.put("j", Z); std::mem::forget(o); }
+    kani::assert(a.get::<Z>("k").is_some() == (n >= 1), "C25.get_returns_stored_value");
+    unsafe { ZDROPS = 0; }
+    drop(a);
+    kani::assert(unsafe { ZDROPS } == n, "C25.values_dropped_with_owner");
+    kani::cover!(n == 2, "C25.cover_two_zero_sized_values_dropped");
+}
